@@ -3,4 +3,4 @@ def main (args : List String) : IO Unit :=
   if args.head? == some "classify" then
     IstioModel.Wire.run ({} : IstioModel.C15.CState) IstioModel.C15.stepClassify
   else
-    IstioModel.Wire.run ({} : IstioModel.C15.State) IstioModel.C15.stepD
+    IstioModel.Wire.run ({} : IstioModel.C15.DState) IstioModel.C15.stepD
